@@ -75,6 +75,19 @@ def build_corpus(tier, seed):
         trees = small + rnd.sample([t for t in trees if gen.size(t) == nmax], 25000 - len(small))
     for t in trees:
         mk(cases, [("cmd", t)], [], "exhaustive")
+    # operator precedence: every tree with <= 6 nodes over two literals and the operators || | sequence [ ] ...
+    memo2 = {}
+    for n in range(5, 7):
+        for t in gen.enum_trees(n, [L("a"), L("b")], ["seq", "alt", "fb", "opt", "many"], memo=memo2, max_arity=2):
+            if gen.normal(t) and any(x[0] == "fb" for x in gen.walk(t)):
+                mk(cases, [("cmd", t)], [], "precedence")
+    # inside a word: every expression with <= 4 nodes over {x, <R>} after a literal prefix (nested juxtaposition inside | and ||)
+    memo3 = {}
+    for n in range(2, 5 if tier == "quick" else 6):
+        for t in gen.enum_trees(n, [L("x"), R("R")], ["seq", "alt", "fb", "opt", "many"], insub=True, memo=memo3, max_arity=2):
+            w = ("sub", [L("--k="), t])
+            if gen.normal(w):
+                mk(cases, [("cmd", w)], [], "within_word")
     nexh = len(cases)
     # (2) random grammars under layouts and recipes
     nrand = 60 if tier == "quick" else 500
